@@ -144,7 +144,10 @@ class Model:
         out = self.p.stdout.readline()
         if not out:
             raise RuntimeError('model driver died')
-        return json.loads(out)
+        res = json.loads(out)
+        if 'driver_error' in res and os.environ.get('VERIF_DEBUG_REQ'):
+            open(os.environ['VERIF_DEBUG_REQ'], 'a').write(line + '\n')
+        return res
 
     def run(self, spec, actions, orders=(), descs=None, pools=(True, True), hyps=0):
         """hyps: 1 = also evaluate the hypotheses of the theorems over all plain programs (plain_prog, valid_orders) on this program
